@@ -25,6 +25,9 @@
 #include <mutex>
 #include <unordered_map>
 #include <cmath>
+#include <sys/file.h>
+#include <fcntl.h>
+#include <unistd.h>
 
 using namespace icinga;
 
@@ -90,7 +93,7 @@ void SchCheckFn(const Checkable::Ptr& checkable, const CheckResult::Ptr& cr, con
 		// only for calm checkables, whose next_check is never stale
 		long t = NowUs();
 		long late = ci.calm ? std::max(0L, t - ToUs(cr->GetScheduleStart())) : -1;
-		Record({'S', t, id, late});
+		Record({'S', t, id, late, ToUs(cr->GetScheduleStart())});
 	}
 	if (ci.dur_us > 0)
 		Utility::Sleep(ci.dur_us / 1e6);
@@ -170,8 +173,16 @@ void Snapshot(const CheckerComponent::Ptr& checker, int n)
 	for (int i = 0; i < n; i++) g1[i] = l_Cks[i]->gen.load();
 	std::vector<const Checkable *> idle, pend;
 	std::vector<char> sched(n);
+	const Checkable *head = nullptr;
+	double headKey = 0;
+	int pcount = 0;
+	long tSnap;
 	{
 		std::unique_lock<std::mutex> lock(checker->m_Mutex);
+		tSnap = NowUs();
+		auto& byTime = boost::get<1>(checker->m_IdleCheckables);
+		if (byTime.begin() != byTime.end()) { head = byTime.begin()->Object.get(); headKey = byTime.begin()->NextCheck; }
+		pcount = Checkable::GetPendingChecks();   // same lock order as CheckThreadProc (m_Mutex, then m_StatsMutex)
 		for (const CheckableScheduleInfo& csi : checker->m_IdleCheckables) idle.push_back(csi.Object.get());
 		for (const CheckableScheduleInfo& csi : checker->m_PendingCheckables) pend.push_back(csi.Object.get());
 		for (int i = 0; i < n; i++) {
@@ -201,7 +212,11 @@ void Snapshot(const CheckerComponent::Ptr& checker, int n)
 		os << i << ":" << (int)sched[i];
 	}
 	if (first) os << "-";
-	Rec r{'P', NowUs()};
+	// what the scheduler would look at right now: begin() of the next-check index, its key, the slot counter
+	os << " h=";
+	if (head) os << IndexOf(head) << ":" << ToUs(headKey); else os << "-";
+	os << " pc=" << pcount;
+	Rec r{'P', tSnap};
 	r.s = os.str();
 	Record(std::move(r));
 }
@@ -335,8 +350,24 @@ VOP(sch_run)
 	long slack_us = a.num("slack", 2500) * 1000;
 	long dlo = a.num("dlo", 20), dhi = a.num("dhi", 120);
 	int calmMod = a.num("calm", 3);   // checkables with id % calm == 0 are never paused/disabled/deleted: long liveness windows
-	int ncap = n0 + (int)(dur_ms * rate / 1000 / 8) + 16;   // room for runtime-created objects
+	int ncap = n0 + std::min((int)(dur_ms * rate / 1000 / 8) + 16, a.num("cap", 1) ? 2 * n0 + 40 : 1000000);   // room for runtime-created objects (bounded: the load stays what the generator planned)
 
+	// at most <par> real-thread cases at a time on this machine (all vdrive processes, all concurrent ./check C04):
+	// the cases are timing sensitive and must not load the machine by themselves
+	int par = a.num("par", 4);
+	int slotFd = -1;
+	{
+		std::string dir = "/var/tmp/verif_c04_slots";
+		Utility::MkDirP(dir, 0777);
+		for (long tries = 0; slotFd < 0; tries++) {
+			for (int k = 0; k < par && slotFd < 0; k++) {
+				int fd = open((dir + "/slot" + std::to_string(k)).c_str(), O_CREAT | O_RDWR, 0666);
+				if (fd < 0) continue;
+				if (flock(fd, LOCK_EX | LOCK_NB) == 0) slotFd = fd; else close(fd);
+			}
+			if (slotFd < 0) Utility::Sleep(0.05 + (getpid() % 50) / 1000.0);   // not from rng: the storm must depend on the seed only
+		}
+	}
 	ScriptGlobal::Set("MaxConcurrentChecks", maxc);
 	Configuration::Concurrency = std::max(1, tp / 2);
 	DrainThreadPool();
@@ -413,7 +444,7 @@ VOP(sch_run)
 
 	struct Win { int c; long a, b, B; };
 	std::vector<Win> wins;
-	struct Forced { int c; long t; long until; };
+	struct Forced { int c; long t; long until; long t2; };
 	std::vector<Forced> forced;
 	auto bound = [&](const CkInfo& ci) { return 2 * std::max(ci.ci_us, ci.ri_us) + 2 * dmax_us + slack_us; };
 	auto eligible = [](const CkInfo& ci) { return ci.exists && !ci.paused && ci.enabled && ci.inperiod; };
@@ -454,10 +485,13 @@ VOP(sch_run)
 			} else if (op < 42) {    // reschedule (API reschedule-check without force)
 				long d = rng.chance(50) ? 0 : rng.range(0, std::max(ci.ci_us, ci.ri_us));
 				touch(c, [&](CkInfo& k) { k.obj->SetNextCheck(Utility::GetTime() + d / 1e6); });
+				// a later reschedule moves the key the forced request had set: the request is no longer comparable
+				{ long tr = NowUs(); for (auto& fr : forced) if (fr.c == c && fr.until < 0) fr.until = tr; }
 			} else if (op < 56) {    // force (API reschedule-check force=true)
 				long tf = NowUs();   // BEFORE the request: the forced check may start before SetNextCheck() returns
+				for (auto& fr : forced) if (fr.c == c && fr.until < 0) fr.until = tf;   // a new request re-keys c (next_check = now): it supersedes the older one
 				touch(c, [&](CkInfo& k) { k.obj->SetForceNextCheck(true); k.obj->SetNextCheck(Utility::GetTime()); });
-				if (!ci.paused) forced.push_back({c, tf, -1});
+				if (!ci.paused) forced.push_back({c, tf, -1, NowUs()});
 			} else if (op < 70) {    // enable_active_checks
 				touch(c, [&](CkInfo& k) { k.enabled = !k.enabled; k.obj->SetEnableActiveChecks(k.enabled); });
 			} else if (op < 80) {    // check period closes / opens
@@ -513,7 +547,7 @@ VOP(sch_run)
 	for (const Rec& r : l_Recs) {
 		std::ostringstream o;
 		switch (r.k) {
-			case 'S': o << "S " << r.a << " " << r.b << " " << r.c; break;
+			case 'S': o << "S " << r.a << " " << r.b << " " << r.c << " " << r.d; break;
 			case 'E': o << "E " << r.a << " " << r.b; break;
 			case 'P': o << "P " << r.a << " " << r.s; break;
 			case 'N': o << "N " << r.a << " " << r.b << " " << r.c << " " << r.d << " " << r.e << " " << r.f; break;
@@ -527,7 +561,8 @@ VOP(sch_run)
 	}
 	for (const Forced& f : forced) {
 		std::ostringstream o;
-		o << "F " << f.c << " " << f.t << " " << (f.until < 0 ? tEnd : f.until) << " " << bound(*l_Cks[f.c]);
+		o << "F " << f.c << " " << f.t << " " << (f.until < 0 ? tEnd : f.until) << " " << bound(*l_Cks[f.c])
+		  << " " << f.t2 << " " << std::max(l_Cks[f.c]->ci_us, l_Cks[f.c]->ri_us);
 		Out(o.str());
 	}
 	{
@@ -557,4 +592,5 @@ VOP(sch_run)
 	if (item) item->Unregister();
 	{ std::unique_lock<std::mutex> lock(l_IndexMutex); l_Index.clear(); }
 	l_Cks.clear();
+	if (slotFd >= 0) { flock(slotFd, LOCK_UN); close(slotFd); }
 }
